@@ -1,5 +1,6 @@
 import Proofs.Ledger.NodesExamples
 import Proofs.Ledger.NodesC22
+import Proofs.Ledger.NodesGenesis
 /-!
 # C22 — Consensus validator updates match the top staked nodes
 
@@ -35,6 +36,13 @@ theorem updates_track_topN (s : State) (h2 : Inv2 s) (ops : List Op)
   have r := inv2_run h2 ops hops
   obtain ⟨p', sy⟩ := endBlock_outcome r.inv r.prev h t hh
   exact sameMap_of_pointwise p'.tmNodup (topN_keys_nodup (inv_endBlock r.inv h t)) sy.tm
+
+/-- from genesis: a genesis file whose validators are all staked, then any modern history -/
+theorem updates_track_topN_from_genesis (p : Params) (vs : List Val) (bal : List (Addr × Int)) (supply0 : Int)
+    (hst : ∀ v ∈ vs, v.status = .staked ∧ 0 ≤ v.tokens) (hnd : (vs.map (·.addr)).Nodup) (ops : List Op)
+    (hops : ∀ op ∈ ops, op.isPoolSend = false ∧ op.modern = true) (h t : Int) (hh : splitHeight ≤ h) :
+    tmSetOk (endBlock (run (initGenesis p vs bal supply0) ops) h t).1 = true :=
+  updates_track_topN _ (inv2_initGenesis p vs bal supply0 hst hnd) ops hops h t hh
 
 /-- pointwise form: member ↔ in the top N, with the current power -/
 theorem updates_track_topN_pointwise (s : State) (h2 : Inv2 s) (ops : List Op)
